@@ -7,7 +7,7 @@
 import JrpcVerif.Model.ServerMsg
 import JrpcVerif.Proofs.BuildLemmas
 namespace Jrpc.Srv
-open Jrpc
+open Jrpc Jrpc.Gen.E
 
 theorem byteLen_append (a b : Text) : byteLen (a ++ b) = byteLen a + byteLen b := by
   induction a with
@@ -113,6 +113,348 @@ theorem c08_requests_unaffected (cfg cfg' : Cfg) (tr : Transport) (sub : Nat) (t
   | notif n => simp
   | invalid id => simp
   | garbage => simp
+
+/-! ### end to end: every reply text the pipeline produces -/
+
+/-- the fixed library errors that are built with the unbounded `MethodResponse::error` -/
+def IsLibError (r : Text) : Prop :=
+  ∃ id e, r = errorResponse id e ∧
+    (e = errNoData METHOD_NOT_FOUND_CODE METHOD_NOT_FOUND_MSG ∨ e = internalError ∨
+     e = errNoData INVALID_REQUEST_CODE INVALID_REQUEST_MSG ∨ e = errNoData PARSE_ERROR_CODE PARSE_ERROR_MSG)
+
+/-- a reply text that C08 allows: within the limit, the too-big error for the call's id, or one of
+the fixed library errors -/
+def C08Ok (r : Text) (max : Nat) : Prop :=
+  byteLen r ≤ max ∨ (∃ id, r = tooBigResponse id max) ∨ IsLibError r
+
+theorem methodResponse_ok (id : Id) (p : Payload) (max : Nat) : C08Ok (methodResponse id p max) max := by
+  rcases (c08_single id p max).1 with h | h
+  · exact .inl h
+  · exact .inr (.inl ⟨id, h⟩)
+
+theorem internal_ok (id : Id) (max : Nat) : C08Ok (errorResponse id internalError) max :=
+  .inr (.inr ⟨_, _, rfl, .inr (.inl rfl)⟩)
+
+theorem callMethod_ok (cfg : Cfg) (tr : Transport) (sub : Nat) (r : Request) :
+    C08Ok (callMethod cfg tr sub r).resp cfg.maxResp ∧
+    ∀ d ∈ (callMethod cfg tr sub r).direct, C08Ok d cfg.maxResp := by
+  unfold callMethod
+  cases hh : handlerOutcome r.method r.params with
+  | none => exact ⟨.inr (.inr ⟨_, _, rfl, .inl rfl⟩), by simp⟩
+  | some ko =>
+    obtain ⟨k, o⟩ := ko
+    have hsub : ∀ x : Text, (∀ d ∈ [methodResponse r.id (.result x) cfg.maxResp], C08Ok d cfg.maxResp) := by
+      intro x d hd
+      rw [List.mem_singleton.mp hd]
+      exact methodResponse_ok _ _ _
+    cases k with
+    | subscribe =>
+      cases tr with
+      | http => dsimp only; exact ⟨internal_ok _ _, List.forall_mem_nil _⟩
+      | ws => dsimp only; exact ⟨methodResponse_ok _ _ _, hsub _⟩
+    | unsubscribe =>
+      cases tr with
+      | http => dsimp only; exact ⟨internal_ok _ _, List.forall_mem_nil _⟩
+      | ws => dsimp only; exact ⟨methodResponse_ok _ _ _, List.forall_mem_nil _⟩
+    | sync =>
+      cases o with
+      | result raw => dsimp only; exact ⟨methodResponse_ok _ _ _, List.forall_mem_nil _⟩
+      | error e => dsimp only; exact ⟨methodResponse_ok _ _ _, List.forall_mem_nil _⟩
+      | panic => dsimp only; exact ⟨internal_ok _ _, List.forall_mem_nil _⟩
+    | async =>
+      cases o with
+      | result raw => dsimp only; exact ⟨methodResponse_ok _ _ _, List.forall_mem_nil _⟩
+      | error e => dsimp only; exact ⟨methodResponse_ok _ _ _, List.forall_mem_nil _⟩
+      | panic => dsimp only; exact ⟨internal_ok _ _, List.forall_mem_nil _⟩
+    | blocking =>
+      cases o with
+      | result raw => dsimp only; exact ⟨methodResponse_ok _ _ _, List.forall_mem_nil _⟩
+      | error e => dsimp only; exact ⟨methodResponse_ok _ _ _, List.forall_mem_nil _⟩
+      | panic => dsimp only; exact ⟨internal_ok _ _, List.forall_mem_nil _⟩
+
+/-- **C08 end to end (single message)** — for every message text, configuration and transport:
+the reply and every frame a subscription callback wrote directly are within the response limit,
+or the too-big error of that call, or a fixed library error. -/
+theorem c08_single_end_to_end (cfg : Cfg) (tr : Transport) (sub : Nat) (t : Text) :
+    (∀ r, (handleSingle cfg tr sub t).reply = some r → C08Ok r cfg.maxResp) ∧
+    (∀ d ∈ (handleSingle cfg tr sub t).direct, C08Ok d cfg.maxResp) := by
+  unfold handleSingle
+  cases hc : classify t with
+  | call rq =>
+    have h := callMethod_ok cfg tr sub rq
+    refine ⟨?_, h.2⟩
+    intro r hr
+    simp only [] at hr
+    split at hr
+    · cases hr
+    · cases hr; exact h.1
+  | notif n => simp
+  | invalid id =>
+    refine ⟨?_, by simp⟩
+    intro r hr
+    cases hr
+    exact .inr (.inr ⟨_, _, rfl, .inr (.inr (.inl rfl))⟩)
+  | garbage =>
+    refine ⟨?_, by simp⟩
+    intro r hr
+    cases hr
+    exact .inr (.inr ⟨_, _, rfl, .inr (.inr (.inr rfl))⟩)
+
+/-- the batch loop keeps the builder invariant for *every* entry list (subscriptions included),
+a failed append yields exactly the -32011 object, and every directly written frame is allowed -/
+theorem runBatch_inv (cfg : Cfg) (tr : Transport) : ∀ (es : List Entry) (st : BatchState) (rs : List Text),
+    BatchInv st.b rs cfg.maxResp → (∀ d ∈ st.direct, C08Ok d cfg.maxResp) →
+    (∀ st', runBatch cfg tr es st = .ok st' →
+        (∃ rs', BatchInv st'.b (rs ++ rs') cfg.maxResp) ∧ ∀ d ∈ st'.direct, C08Ok d cfg.maxResp) ∧
+    (∀ err st', runBatch cfg tr es st = .error (err, st') →
+        err = errorResponse .null (rejectErr reject_too_big_batch_response cfg.maxResp) ∧
+        ∀ d ∈ st'.direct, C08Ok d cfg.maxResp) := by
+  intro es
+  induction es with
+  | nil =>
+    intro st rs hinv hd
+    refine ⟨?_, ?_⟩
+    · intro st' h
+      simp only [runBatch] at h
+      cases h
+      exact ⟨⟨[], by simpa using hinv⟩, hd⟩
+    · intro err st' h
+      simp [runBatch] at h
+  | cons e es ih =>
+    intro st rs hinv hd
+    cases e with
+    | call rq =>
+      have hc := callMethod_ok cfg tr st.sub rq
+      have hd1 : ∀ d ∈ st.direct ++ (callMethod cfg tr st.sub rq).direct, C08Ok d cfg.maxResp := by
+        intro d hm
+        rcases List.mem_append.mp hm with h | h
+        · exact hd d h
+        · exact hc.2 d h
+      by_cases hfit : byteLen (callMethod cfg tr st.sub rq).resp + byteLen st.b.result + 1 ≤ cfg.maxResp
+      · obtain ⟨b', hb', hinv'⟩ := (c08_append st.b rs (callMethod cfg tr st.sub rq).resp cfg.maxResp hinv).1 hfit
+        have ih' := ih { st with direct := st.direct ++ (callMethod cfg tr st.sub rq).direct,
+                                 invoked := st.invoked ++ (callMethod cfg tr st.sub rq).invoked,
+                                 sub := (callMethod cfg tr st.sub rq).nextSub, b := b' }
+                      (rs ++ [(callMethod cfg tr st.sub rq).resp]) hinv' hd1
+        refine ⟨?_, ?_⟩
+        · intro st' h
+          simp only [runBatch, hb'] at h
+          obtain ⟨⟨rs', hr⟩, hdd⟩ := ih'.1 st' h
+          exact ⟨⟨(callMethod cfg tr st.sub rq).resp :: rs', by simpa using hr⟩, hdd⟩
+        · intro err st' h
+          simp only [runBatch, hb'] at h
+          exact ih'.2 err st' h
+      · have hover : cfg.maxResp < byteLen (callMethod cfg tr st.sub rq).resp + byteLen st.b.result + 1 := by omega
+        have hb' := (c08_append st.b rs (callMethod cfg tr st.sub rq).resp cfg.maxResp hinv).2 hover
+        refine ⟨?_, ?_⟩
+        · intro st' h
+          simp [runBatch, hb'] at h
+        · intro err st' h
+          simp only [runBatch, hb'] at h
+          cases h
+          exact ⟨rfl, hd1⟩
+    | notif =>
+      have ih' := ih { st with gotNotif := true } rs hinv hd
+      refine ⟨?_, ?_⟩
+      · intro st' h
+        simp only [runBatch] at h
+        exact ih'.1 st' h
+      · intro err st' h
+        simp only [runBatch] at h
+        exact ih'.2 err st' h
+    | invalid id =>
+      by_cases hfit : byteLen (errorResponse id (errNoData INVALID_REQUEST_CODE INVALID_REQUEST_MSG)) + byteLen st.b.result + 1 ≤ cfg.maxResp
+      · obtain ⟨b', hb', hinv'⟩ := (c08_append st.b rs _ cfg.maxResp hinv).1 hfit
+        have ih' := ih { st with b := b' } (rs ++ [errorResponse id (errNoData INVALID_REQUEST_CODE INVALID_REQUEST_MSG)]) hinv' hd
+        refine ⟨?_, ?_⟩
+        · intro st' h
+          simp only [runBatch, hb'] at h
+          obtain ⟨⟨rs', hr⟩, hdd⟩ := ih'.1 st' h
+          exact ⟨⟨_ :: rs', by simpa using hr⟩, hdd⟩
+        · intro err st' h
+          simp only [runBatch, hb'] at h
+          exact ih'.2 err st' h
+      · have hover : cfg.maxResp < byteLen (errorResponse id (errNoData INVALID_REQUEST_CODE INVALID_REQUEST_MSG)) + byteLen st.b.result + 1 := by omega
+        have hb' := (c08_append st.b rs _ cfg.maxResp hinv).2 hover
+        refine ⟨?_, ?_⟩
+        · intro st' h
+          simp [runBatch, hb'] at h
+        · intro err st' h
+          simp only [runBatch, hb'] at h
+          cases h
+          exact ⟨rfl, hd⟩
+
+/-- what a batch may be answered with besides an array within the limit -/
+def IsBatchLibError (cfg : Cfg) (r : Text) : Prop :=
+  r = errorResponse .null (errNoData BATCHES_NOT_SUPPORTED_CODE BATCHES_NOT_SUPPORTED_MSG) ∨
+  r = parseErrorResp ∨
+  (∃ lim, r = errorResponse .null (rejectErr reject_too_big_batch_request lim)) ∨
+  r = errorResponse .null (rejectErr reject_too_big_batch_response cfg.maxResp) ∨
+  r = errorResponse .null (errNoData INVALID_REQUEST_CODE INVALID_REQUEST_MSG)
+
+/-- the part of `handle_rpc_call` after the batch loop -/
+theorem batch_tail (cfg : Cfg) (tr : Transport) (sub : Nat) (es : List Entry) :
+    let out : MsgOut := match runBatch cfg tr es ⟨BatchB.new, false, [], [], sub⟩ with
+      | .error (err, st) => ⟨some err, st.direct, st.invoked, st.sub⟩
+      | .ok st =>
+        if st.b.isEmpty && st.gotNotif then ⟨none, st.direct, st.invoked, st.sub⟩
+        else ⟨some st.b.finish, st.direct, st.invoked, st.sub⟩
+    (∀ r, out.reply = some r → byteLen r ≤ cfg.maxResp ∨ IsBatchLibError cfg r) ∧
+    (∀ d ∈ out.direct, C08Ok d cfg.maxResp) := by
+  have hinv := runBatch_inv cfg tr es ⟨BatchB.new, false, [], [], sub⟩ [] (batch_inv_new cfg.maxResp) (by simp)
+  intro out
+  cases hr : runBatch cfg tr es ⟨BatchB.new, false, [], [], sub⟩ with
+  | error p =>
+    obtain ⟨err, st⟩ := p
+    have h := hinv.2 err st hr
+    have ho : out = ⟨some err, st.direct, st.invoked, st.sub⟩ := by simp only [out, hr]
+    rw [ho]
+    refine ⟨?_, h.2⟩
+    intro r hrr
+    cases hrr
+    exact .inr (.inr (.inr (.inr (.inl h.1))))
+  | ok st =>
+    obtain ⟨⟨rs', hi⟩, hd⟩ := hinv.1 st hr
+    simp only [List.nil_append] at hi
+    by_cases hc : (st.b.isEmpty && st.gotNotif) = true
+    · have ho : out = ⟨none, st.direct, st.invoked, st.sub⟩ := by simp only [out, hr, hc]; rfl
+      rw [ho]
+      exact ⟨by simp, hd⟩
+    · have ho : out = ⟨some st.b.finish, st.direct, st.invoked, st.sub⟩ := by simp only [out, hr, hc]; rfl
+      rw [ho]
+      refine ⟨?_, hd⟩
+      intro r hrr
+      cases hrr
+      by_cases hne : rs' = []
+      · subst hne
+        have : st.b.result = [91] := by simpa [commaCat] using hi.1
+        right; right; right; right
+        simp [BatchB.finish, this]
+      · exact .inl (c08_finish st.b rs' cfg.maxResp hi hne).2
+
+/-- **C08 end to end (batch)** — for every batch text, configuration and transport, with no side
+condition: the reply is within the response limit or one of the five fixed batch-level errors
+(id null), and every frame written directly by a subscription callback during the batch is
+allowed as for a single call. -/
+theorem c08_batch_end_to_end (cfg : Cfg) (tr : Transport) (sub : Nat) (t : Text) :
+    (∀ r, (handleBatch cfg tr sub t).reply = some r → byteLen r ≤ cfg.maxResp ∨ IsBatchLibError cfg r) ∧
+    (∀ d ∈ (handleBatch cfg tr sub t).direct, C08Ok d cfg.maxResp) := by
+  unfold handleBatch
+  cases hb : cfg.batch with
+  | disabled =>
+    refine ⟨?_, by simp⟩
+    intro r hr
+    cases hr
+    exact .inr (.inl rfl)
+  | limit n =>
+    simp only []
+    cases he : elements t with
+    | none =>
+      refine ⟨?_, by simp⟩
+      intro r hr; cases hr
+      exact .inr (.inr (.inl rfl))
+    | some es =>
+      simp only []
+      split
+      · refine ⟨?_, by simp⟩
+        intro r hr; cases hr
+        exact .inr (.inr (.inr (.inl ⟨_, rfl⟩)))
+      · exact batch_tail cfg tr sub (es.map classifyEntry)
+  | unlimited =>
+    simp only []
+    cases he : elements t with
+    | none =>
+      refine ⟨?_, by simp⟩
+      intro r hr; cases hr
+      exact .inr (.inr (.inl rfl))
+    | some es =>
+      simp only []
+      split
+      · rename_i h; simp at h
+      · exact batch_tail cfg tr sub (es.map classifyEntry)
+
+/-- a frame / body the transports may emit: allowed for a call, allowed for a batch, or the
+transport's own fixed rejection (request too big, parse error) -/
+def C08Frame (cfg : Cfg) (r : Text) : Prop :=
+  C08Ok r cfg.maxResp ∨ IsBatchLibError cfg r ∨
+  r = errorResponse .null (rejectErr reject_too_big_request cfg.maxReq)
+
+/-- **C08 end to end (WebSocket)** — every frame queued because of any text message, whatever the
+message and the configuration, is within the response limit or one of the fixed library errors. -/
+theorem c08_ws_end_to_end (cfg : Cfg) (sub : Nat) (t : Text) :
+    ∀ f ∈ (wsMessage cfg sub t).frames, C08Frame cfg f := by
+  unfold wsMessage
+  split
+  · intro f hf
+    rw [List.mem_singleton.mp hf]
+    exact .inr (.inr rfl)
+  · cases hs : sniff 128 0 t with
+    | none =>
+      intro f hf
+      rw [List.mem_singleton.mp hf]
+      exact .inr (.inl (.inr (.inl rfl)))
+    | some p =>
+      obtain ⟨idx, single⟩ := p
+      dsimp only
+      cases single with
+      | true =>
+        have h := c08_single_end_to_end cfg .ws sub (t.drop idx)
+        intro f hf
+        simp only [if_true] at hf
+        rcases List.mem_append.mp hf with hd | hr
+        · exact .inl (h.2 f hd)
+        · cases hrep : (handleSingle cfg .ws sub (t.drop idx)).reply with
+          | none => rw [hrep] at hr; simp at hr
+          | some r =>
+            rw [hrep] at hr
+            rw [List.mem_singleton.mp hr]
+            exact .inl (h.1 r hrep)
+      | false =>
+        have h := c08_batch_end_to_end cfg .ws sub (t.drop idx)
+        intro f hf
+        simp only [Bool.false_eq_true, if_false] at hf
+        rcases List.mem_append.mp hf with hd | hr
+        · exact .inl (h.2 f hd)
+        · cases hrep : (handleBatch cfg .ws sub (t.drop idx)).reply with
+          | none => rw [hrep] at hr; simp at hr
+          | some r =>
+            rw [hrep] at hr
+            rw [List.mem_singleton.mp hr]
+            rcases h.1 r hrep with hb | hb
+            · exact .inl (.inl hb)
+            · exact .inr (.inl hb)
+
+/-- **C08 end to end (HTTP)** — the body of every 200 answer is `null` (acknowledgement), within
+the response limit, or one of the fixed library errors; for every method, content type, declared
+length and chunking. -/
+theorem c08_http_end_to_end (cfg : Cfg) (m : Text) (ct : Option Text) (cl : Option Nat) (chunks : List Text) :
+    (httpCall cfg m ct cl chunks).status = 200 →
+    (httpCall cfg m ct cl chunks).body = tNull ∨ C08Frame cfg (httpCall cfg m ct cl chunks).body := by
+  unfold httpCall
+  split
+  · intro h; simp at h
+  · split
+    · intro h; simp at h
+    · cases hb : readBody cl chunks cfg.maxReq with
+      | tooLarge => intro h; simp at h
+      | malformed => intro h; simp at h
+      | ok data single =>
+        intro _
+        dsimp only
+        cases single with
+        | true =>
+          simp only [if_true]
+          cases hrep : (handleSingle cfg .http 0 data).reply with
+          | none => exact .inl rfl
+          | some r => exact .inr (.inl ((c08_single_end_to_end cfg .http 0 data).1 r hrep))
+        | false =>
+          simp only [Bool.false_eq_true, if_false]
+          cases hrep : (handleBatch cfg .http 0 data).reply with
+          | none => exact .inl rfl
+          | some r =>
+            rcases (c08_batch_end_to_end cfg .http 0 data).1 r hrep with hb' | hb'
+            · exact .inr (.inl (.inl hb'))
+            · exact .inr (.inr (.inl hb'))
 
 -- non-vacuity: a reply exactly at the limit is sent unchanged, one byte more is replaced
 example : byteLen (respText (.num 1) (.result [49])) = 35 := by decide
